@@ -63,6 +63,34 @@ static void try_token(pv_mlang* L, unsigned w, const cps* tok, bool nfc, const c
         }
     }
     if (st == POLYSEED_OK) pv_api_free(s);
+    /* the same rule holds when the language is detected automatically, whatever was decoded before: in a sub-sample a valid
+     * phrase of this language is restored first (so that anything the library might remember points at this language), then the
+     * variant phrase goes through polyseed_decode and is compared with the model's auto-detection pipeline */
+    if (rot % 4 == 2) {
+        if (rot % 8 == 2) {
+            unsigned d2[16]; pv_mseed m2; pv_gen_place(rng, (int)(rot % 16), (w + 1) % PV_NWORDS, coin, false, 7, d2, &m2);
+            char warm[2048]; pv_m_join_space(L, d2, warm, sizeof warm);
+            char* wi = pv_exact_str(warm); polyseed_data* ws = NULL; const polyseed_lang* wl = NULL;
+            int wst = pv_api_decode(wi, coin, &wl, &ws); PV_COUNT("evaluations", 1);
+            if (wst == POLYSEED_OK) { pv_api_free(ws); PV_COUNT("auto.preceded_by_a_successful_restore_in_the_same_language", 1); }
+            free(wi);
+        }
+        pv_mdecode mda; pv_m_decode(in, coin, NULL, 7, &mda);
+        polyseed_data* a = NULL; const polyseed_lang* lo = NULL;
+        int sa = pv_api_decode(in, coin, &lo, &a);
+        PV_COUNT("evaluations", 1);
+        if (mda.status < 0) PV_COUNT("auto.unspecified_by_model(skipped)", 1);
+        else if (sa != mda.status) {
+            ok = false;
+            char key[200]; snprintf(key, sizeof key, "C08/auto/%s/%s/model-%s", cls, L->key, expect);
+            pv_violation(key, "%s word %u '%s', token '%s' at position %d: polyseed_decode %s, model %s; phrase '%s'", L->name_en, w, L->word[w], pv_esc(tokstr), p, pv_status_name(sa), pv_status_name(mda.status), pv_esc(in));
+        } else {
+            pv_countf(1, "auto.%s", pv_status_name(sa));
+            if (sa == POLYSEED_OK) { pv_api_store(a, g_img); uint8_t mimg[32]; pv_m_image(&mda.seed, mimg);
+                if (memcmp(g_img, mimg, 32) || (mda.lang >= 0 && lo != pv_langs[mda.lang].lib)) { ok = false; char key[200]; snprintf(key, sizeof key, "C08/auto/%s/%s/decodes-to-other-seed-or-language", cls, L->key); pv_violation(key, "%s word %u, token '%s'", L->name_en, w, pv_esc(tokstr)); } }
+        }
+        if (sa == POLYSEED_OK) pv_api_free(a);
+    }
     if (ok) PV_DISTINCT("nontrivial", pv_mix(pv_mix(pv_hash_str(L->key), w), pv_mix(pv_hash(tok->c, (size_t)tok->n * 4, 3), nfc)));
     if ((rot & 0x3fff) == 5) pv_sample(cls, "%s word '%s' token '%s' -> %s (model %s)", L->name_en, L->word[w], pv_esc(tokstr), pv_status_name(st), expect);
     free(in);
